@@ -737,30 +737,52 @@ def r8_program_identity(ctx, sym):
     tool = sym.const(mod, ast.parse('TOOL_NAME', mode='eval').body)
     src_tool = sym.const(mod, ast.parse('SOURCE_TOOL_NAME', mode='eval').body)
     from ..fdeval import Raised
+    # 'BAD' is explicit code CPython rejects: the query on it finds nothing, and must not change what later queries
+    # on other code find
     sequences = [[None], [None, None], ['OTHER', None], [None, 'OTHER', None], ['OTHER', 'OTHER', None, 'THIRD', None],
-                 ['OTHER']]
+                 ['OTHER'], ['BAD', None], [None, 'BAD', None], ['BAD', 'OTHER'], ['BAD', 'BAD', None],
+                 ['OTHER', 'BAD', 'OTHER']]
+    from .. import symexec
+    reset_fn = mod.functions.get('reset')
     for source_ok in (True, False):
         for seq in sequences:
-            cait = {'cache': {}, 'ast': None, 'success': True, 'error': None}
             source = {'success': source_ok, 'ast': ('source-ast', 'MAIN')}
+            store = {}
             report = Obj('report', submission=Obj('submission', main_code='MAIN'))
-            report.attrs['method:__getitem__'] = lambda k: {tool: cait, src_tool: source}[k]
+            report.attrs['method:__getitem__'] = lambda k: source if k == src_tool else store[k]
+            report.attrs['method:__setitem__'] = lambda k, v: store.__setitem__(k, v)
+
+            def parse(c, *a, **k):
+                if c == 'BAD':
+                    raise Raised('SyntaxError', 'invalid syntax')
+                return ('parsed', c)
+            fd = symexec.new_fd(sym, mod, calls={'ast.parse': parse, 'system_error': lambda *a, **k: None,
+                                                 'CaitNode': lambda a, report=None: ('cait', a)},
+                                extra={'MAIN_REPORT': report})
+            # the tool's own reset() builds the per-report data (whatever keys it uses)
+            if reset_fn is not None:
+                symexec.run(fd, reset_fn, [], {'report': report}, what='cait reset')
+            else:
+                store[tool] = {'cache': {}, 'ast': None, 'success': True, 'error': None}
+            cait = store[tool]
             for i, code in enumerate(seq):
-                fd = FD()
-                fd.resolver = lambda n: {'TOOL_NAME': tool, 'SOURCE_TOOL_NAME': src_tool}[n]
-                fd.calls['_parse_source'] = lambda c, report=None: ('parsed', c)
-                fd.calls['CaitNode'] = lambda a, report=None: ('cait', a)
-                try:
-                    got = fd.call_function(fn, [], {'student_code': code, 'report': report})
-                except (Raised, Inconclusive) as e:
-                    raise AnalysisError("C08 R8: reparse_if_needed outside the decidable fragment: %s" % e)
+                got, raised = symexec.run(fd, fn, [], {'student_code': code, 'report': report},
+                                          what='reparse_if_needed')
                 want_code = code if code is not None else 'MAIN'
                 tree = cait['ast']
-                ok = got is cait and isinstance(tree, tuple) and tree[0] == 'cait' and tree[1][1] == want_code
+                if raised is not None:
+                    ok = False
+                elif code == 'BAD':
+                    ok = got is cait and not cait['success']
+                else:
+                    ok = got is cait and bool(cait['success']) and isinstance(tree, tuple) and tree[0] == 'cait' \
+                        and tree[1][1] == want_code
                 key = 'reparse_if_needed[%s,source_ok=%s]@%d' % (','.join(str(c) for c in seq), source_ok, i)
                 ctx.check(ok, 'R8', key, mod, fn,
-                          "after the calls %s the tree handed to the static checks is %r, not the parse of %r" % (
-                              seq[:i + 1], tree, want_code),
+                          "after the calls %s the static checks are handed the tree %r with success=%r%s; expected %s" % (
+                              seq[:i + 1], tree, cait.get('success'), '' if raised is None else ' (raises %s)' %
+                              raised.kind, 'success=False' if code == 'BAD' else 'the parse of %r with success=True' %
+                              want_code),
                           "find_asts('For', student_code=REFERENCE) followed by ensure_ast('While') on the submission: "
                           "the check counts nodes of the reference solution", construct='reparse_if_needed')
                 if not ok:
